@@ -81,7 +81,9 @@ def run_one(args):
     try:
         open(os.path.join(wt, rel), "w").write(code)
         killed = []
-        env = dict(os.environ, VERIF_REPO_OVERRIDE=wt, VERIF_DEV_ORACLE_ONLY="1", VERIF_DEV_SKIP_GATE="1")
+        env = dict(os.environ, VERIF_REPO_OVERRIDE=wt, VERIF_DEV_SKIP_GATE="1", VERIF_DEV_BUILD=wt + "_build")
+        if not os.environ.get("MUTATE_FULL"):
+            env["VERIF_DEV_ORACLE_ONLY"] = "1"     # default: Python oracles only (fast); MUTATE_FULL=1 also runs the Coq model comparison
         # does it even import?
         r = subprocess.run(["/venv/bin/python", "-c", "import sys; sys.path.insert(0, %r); import trie" % wt], capture_output=True)
         if r.returncode:
@@ -98,6 +100,7 @@ def run_one(args):
         return desc, killed
     finally:
         subprocess.run(["git", "-C", REPO, "worktree", "remove", "--force", wt], capture_output=True)
+        subprocess.run(["rm", "-rf", wt + "_build"])
 
 
 def main():
@@ -107,8 +110,11 @@ def main():
     ms = mutants(src)
     random.Random(seed).shuffle(ms)
     ms = ms[:n]
+    only = os.environ.get("MUTATE_ONLY")           # comma-separated descriptions (kind@line) to re-run
+    if only:
+        ms = [m for m in ms if m[0] in only.split(",")]
     print(f"{len(ms)} mutants of {rel}")
-    with ThreadPoolExecutor(max_workers=6) as ex:
+    with ThreadPoolExecutor(max_workers=int(os.environ.get('MUTATE_WORKERS', '6'))) as ex:
         for desc, killed in ex.map(run_one, [(i, d, c, rel, checks) for i, (d, c) in enumerate(ms)]):
             print(("KILLED  " if killed else "SURVIVED"), desc, killed, flush=True)
 
